@@ -1354,6 +1354,144 @@ impl Tera {
     }
 }
 
+#[cfg(tera_verif)]
+#[allow(missing_docs)]
+impl Tera {
+    /// One JSON line per compiled chunk (main, blocks, components) of every template
+    pub fn verif_listing(&self) -> Vec<String> {
+        use crate::verif::json_str;
+        let mut names: Vec<&String> = self.templates.keys().collect();
+        names.sort();
+        let mut out = Vec::new();
+        for name in names {
+            let t = &self.templates[name];
+            out.push(format!(
+                "{{\"tpl\":{},\"kind\":\"main\",\"h\":{},\"code\":{}}}",
+                json_str(name),
+                t.chunk.verif_hash(),
+                t.chunk.verif_json()
+            ));
+            let mut blocks: Vec<&String> = t.blocks.keys().collect();
+            blocks.sort();
+            for b in blocks {
+                out.push(format!(
+                    "{{\"tpl\":{},\"kind\":{},\"h\":{},\"code\":{}}}",
+                    json_str(name),
+                    json_str(&format!("block:{b}")),
+                    t.blocks[b].verif_hash(),
+                    t.blocks[b].verif_json()
+                ));
+            }
+            let mut comps: Vec<&String> = t.components.keys().collect();
+            comps.sort();
+            for c in comps {
+                out.push(format!(
+                    "{{\"tpl\":{},\"kind\":{},\"h\":{},\"code\":{}}}",
+                    json_str(name),
+                    json_str(&format!("component:{c}")),
+                    t.components[c].1.verif_hash(),
+                    t.components[c].1.verif_json()
+                ));
+            }
+        }
+        out
+    }
+
+    /// Listing of a one-off source compiled with this instance's delimiters
+    pub fn verif_listing_str(&self, input: &str) -> TeraResult<Vec<String>> {
+        use crate::verif::json_str;
+        let t = Template::new(ONE_OFF_TEMPLATE_NAME, input, None, self.delimiters.clone())?;
+        let mut out = vec![format!(
+            "{{\"tpl\":{},\"kind\":\"main\",\"h\":{},\"code\":{}}}",
+            json_str(&t.name),
+            t.chunk.verif_hash(),
+            t.chunk.verif_json()
+        )];
+        let mut blocks: Vec<&String> = t.blocks.keys().collect();
+        blocks.sort();
+        for b in blocks {
+            out.push(format!(
+                "{{\"tpl\":{},\"kind\":{},\"h\":{},\"code\":{}}}",
+                json_str(&t.name),
+                json_str(&format!("block:{b}")),
+                t.blocks[b].verif_hash(),
+                t.blocks[b].verif_json()
+            ));
+        }
+        let mut comps: Vec<&String> = t.components.keys().collect();
+        comps.sort();
+        for c in comps {
+            out.push(format!(
+                "{{\"tpl\":{},\"kind\":{},\"h\":{},\"code\":{}}}",
+                json_str(&t.name),
+                json_str(&format!("component:{c}")),
+                t.components[c].1.verif_hash(),
+                t.components[c].1.verif_json()
+            ));
+        }
+        Ok(out)
+    }
+
+    /// Projection of the registry: parents, block lineages (templates of origin), autoescape
+    /// flags, size hints and the component table, as one JSON object with sorted keys
+    pub fn verif_state(&self) -> String {
+        use crate::verif::json_str;
+        let mut names: Vec<&String> = self.templates.keys().collect();
+        names.sort();
+        let mut tpls = Vec::new();
+        for name in names {
+            let t = &self.templates[name];
+            let mut blocks: Vec<&String> = t.block_lineage.keys().collect();
+            blocks.sort();
+            let lin: Vec<String> = blocks
+                .iter()
+                .map(|b| {
+                    format!(
+                        "{{\"b\":{},\"from\":[{}],\"h\":[{}]}}",
+                        json_str(b),
+                        t.block_lineage[*b]
+                            .iter()
+                            .map(|c| json_str(&c.name))
+                            .collect::<Vec<_>>()
+                            .join(","),
+                        t.block_lineage[*b]
+                            .iter()
+                            .map(|c| c.verif_hash().to_string())
+                            .collect::<Vec<_>>()
+                            .join(",")
+                    )
+                })
+                .collect();
+            tpls.push(format!(
+                "{{\"name\":{},\"parents\":[{}],\"ae\":{},\"bytes\":{},\"lineage\":[{}]}}",
+                json_str(name),
+                t.parents.iter().map(|p| json_str(p)).collect::<Vec<_>>().join(","),
+                t.autoescape_enabled,
+                t.total_content_num_bytes,
+                lin.join(",")
+            ));
+        }
+        let mut comps: Vec<&String> = self.components.keys().collect();
+        comps.sort();
+        let comps: Vec<String> = comps
+            .iter()
+            .map(|c| {
+                format!(
+                    "{{\"name\":{},\"tpl\":{},\"h\":{}}}",
+                    json_str(c),
+                    json_str(&self.components[*c].1.name),
+                    self.components[*c].1.verif_hash()
+                )
+            })
+            .collect();
+        format!(
+            "{{\"templates\":[{}],\"components\":[{}]}}",
+            tpls.join(","),
+            comps.join(",")
+        )
+    }
+}
+
 impl Default for Tera {
     fn default() -> Self {
         let mut tera = Self {
